@@ -97,6 +97,7 @@ package replica
 //@   modifies *
 //@   ensures[resume_is_gap_free] (result && calls(r.stateMgr.GetLiveNode) == old(calls(r.stateMgr.GetLiveNode)) + 1 && calls(r.cliFct.CreateReplicaServiceClient) == old(calls(r.cliFct.CreateReplicaServiceClient)) + 1 && r.replicaCli != nil) ==> queue.CGcons(r.channel.ConsumerGroup) + 1 == r.replicaCli.fNext
 //@   ensures[a_follower_that_lost_its_log_restarts_at_the_first_unacknowledged_position] (result && calls(r.stateMgr.GetLiveNode) == old(calls(r.stateMgr.GetLiveNode)) + 1 && calls(r.cliFct.CreateReplicaServiceClient) == old(calls(r.cliFct.CreateReplicaServiceClient)) + 1 && r.replicaCli != nil && r.replicaCli.resets == 1) ==> r.replicaCli.fNext == queue.CGack(r.channel.ConsumerGroup) + 1
+//@   ensures[the_leader_never_counts_a_position_as_sent_that_it_has_not_appended] (result && calls(r.stateMgr.GetLiveNode) == old(calls(r.stateMgr.GetLiveNode)) + 1 && calls(r.cliFct.CreateReplicaServiceClient) == old(calls(r.cliFct.CreateReplicaServiceClient)) + 1 && r.replicaCli != nil && old(queue.CGack(r.channel.ConsumerGroup)) <= old(queue.CGcons(r.channel.ConsumerGroup)) && old(queue.CGcons(r.channel.ConsumerGroup)) <= old(queue.Qapp(queue.FQqueue(cast(r.channel.ConsumerGroup, "*queue.consumerGroup").q)))) ==> queue.CGcons(r.channel.ConsumerGroup) <= queue.Qapp(queue.FQqueue(cast(r.channel.ConsumerGroup, "*queue.consumerGroup").q))
 //@   ensures rrOK(r)
 //@ end
 
